@@ -16,6 +16,12 @@ CHECKS = {
         "the context flow is tied by deciding R-membership of every observed (input, output) tree pair over all depth-2 trees x 13 contexts x 4 widths.",
    design="5/C05", technique="Coq proof over a relation covering all layouts + kernel regenerated from source (rs2v) + exhaustive tree correspondence",
    note=BASE_NOTE + "rs2v (syn-based translator, ~250 lines) is trusted; the context flow (which context each operand receives) is hand-modelled and tied by correspondence."),
+ "C18": dict(
+   text="Theorems over all valid edit scripts (the script `similar` picks is an arbitrary oracle): the JSON mismatches applied as line-range replacements rebuild the formatted file; a unified diff showing every changed line and any subset "
+        "of context lines, with hunks merged or split arbitrarily, rebuilds it too; no mismatch iff no change. The hand-written builder model is tied to the binary by comparing its output with the binary's JSON on every file, and the "
+        "extracted patchers are run on the binary's own JSON and unified text.",
+   design="5/C18", technique="Coq proof over edit scripts + correspondence of the builder model with the binary + extracted patchers applied to real output",
+   note=BASE_NOTE + "similar (diff algorithm, unified printer) is modelled as an oracle of valid scripts; the patch-text parser in the driver is glue."),
 }
 PENDING = {}
 def main():
